@@ -18,6 +18,7 @@ LEDGE = "lax::hypergraph::Hyperedge"
 
 
 SELF_KIND = [None]
+RANGE_PARAM = [False]
 
 
 def values_len(v):
@@ -162,7 +163,7 @@ def _sym(I, st, tyd, name, depth):
         return VSeq(leaf(name))
     if k == "param":
         nm = tyd["name"]
-        return VUser(("range:" if nm == "R" else "") + name)
+        return VUser(("range:" if nm == "R" and RANGE_PARAM[0] else "") + name)
     if k == "adt":
         p = tyd["path"]
         if p.endswith("vec::Vec") or p.endswith("VecArray"):
@@ -221,4 +222,19 @@ def post_sym(I, st, v, name):
 
 
 def call_override(I, fn, vals, st, fr, e):
+    """Call-site summaries from the oracle table (their conformance with the body is decided
+    when the function itself is analysed as an entry point: ACC + REJ)."""
+    if fn["path"].endswith("finite_function::arrow::FiniteFunction::<K>::new") and fr.fn is not None:
+        table, target = vals
+        if isinstance(table, VSeq) and isinstance(target, VNat):
+            v = VRec(FF, {"table": table, "target": target})
+            if prove_bound(st, table.t, target.p):
+                return [(st, some(v), None)]
+            s_no = st.copy()
+            s_no.unk = s_no.unk + ((("FiniteFunction::new rejects", show_term(table.t)[:120], show_poly(target.p)), True),)
+            s_no.note(f"FiniteFunction::new rejects: some element of {show_term(table.t)[:160]} >= {show_poly(target.p)}")
+            s_no.add_ge(t_len(table.t) - 1)
+            s_yes = st.copy()
+            s_yes.add_bound(table.t, target.p)
+            return [(s_no, NONE, None), (s_yes, some(v), None)]
     return None
